@@ -148,10 +148,12 @@ JwtRowOK(r) ==
 (* emission / exhaustive visit                                             *)
 (***************************************************************************)
 \* rows are visited group by group (a pair list / a family) so that no giant set has to be normalised
-Groups == IF WHAT = "basic" THEN PairLists(DEEP) ELSE {"F1", "F2", "F2v", "F3", "F4", "F5", "F6", "F7"}
+\* F8 a token that expires while the connection to the clock is the only thing that changes: presented after an exchange and an idle gap
+F8(D) == {Row(c, [BaseTok(c) EXCEPT !.exp = "lapsed", !.pay = "obj"]) : c \in Cfgs(Algs, {"k1"}, {"default"}, {"value"}, {"top"})}
+Groups == IF WHAT = "basic" THEN PairLists(DEEP) ELSE {"F1", "F2", "F2v", "F3", "F4", "F5", "F6", "F7", "F8"}
 RowsOf(g) == IF WHAT = "basic" THEN BasicRowsOf(DEEP, g)
              ELSE CASE g = "F1" -> F1(DEEP) [] g = "F2" -> F2(DEEP) [] g = "F2v" -> F2v(DEEP) [] g = "F3" -> F3(DEEP)
-                    [] g = "F4" -> F4(DEEP) [] g = "F5" -> F5(DEEP) [] g = "F6" -> F6(DEEP) [] g = "F7" -> F7(DEEP)
+                    [] g = "F4" -> F4(DEEP) [] g = "F5" -> F5(DEEP) [] g = "F6" -> F6(DEEP) [] g = "F7" -> F7(DEEP) [] g = "F8" -> F8(DEEP)
 RowOK(r) == IF r.mod = "basic" THEN BasicRowOK(r) ELSE JwtRowOK(r)
 
 ASSUME EMIT => \A g \in Groups : \A r \in RowsOf(g) : PrintT(ToJson(r))
